@@ -75,3 +75,20 @@ pub fn vx_deque_get_mut<T>(q: &mut VecDeque<T>, i: usize) -> (r: &mut T)
     requires i < old(q)@.len()
     ensures *r == old(q)@[i as int], final(q)@ == old(q)@.update(i as int, *final(r))
 { q.get_mut(i).unwrap() }
+
+// two stores agree at key k
+pub open spec fn same_at(a: St, b: St, k: Seq<u8>) -> bool { a.contains_key(k) == b.contains_key(k) && a[k] == b[k] }
+// ---- cw_storage_plus::Deque (src/deque.rs): head / tail counters and the elements live under keys
+//   lp(namespace) ++ ("h" | "t" | big-endian index); push_back touches only such keys.   ASSUMED
+#[verifier::external_body]
+#[verifier::reject_recursive_types(T)]
+pub struct Deque<T> { p: core::marker::PhantomData<T> }
+impl<T: CwVal> Deque<T> {
+    pub uninterp spec fn ns(&self) -> Seq<u8>;
+    #[verifier::external_body]
+    pub const fn new(namespace: &'static str) -> (r: Self) ensures r.ns() == str_bytes(namespace@) { Deque { p: core::marker::PhantomData } }
+    #[verifier::external_body]
+    pub fn push_back(&self, store: &mut dyn Storage, value: &T) -> (r: StdResult<()>)
+        ensures forall|k: Seq<u8>| !starts_with(k, lp(self.ns())) ==> #[trigger] same_at(final(store).view(), old(store).view(), k)
+    { unimplemented!() }
+}
